@@ -3,7 +3,7 @@
 (* sendFileDataV2/recvFileDataV2 at message granularity, trz.go/tsz.go/filter.go role        *)
 (* bodies, clientError/serverError).  Two roles: "C" client, "V" server; the file sender is  *)
 (* the client for uploads and the server for downloads.  chan[r] = messages in flight to r.  *)
-(* File content is abstract: a content is [len |-> n, ok |-> b] (n units, b = "these are     *)
+(* File content is abstract: a content is [len |-> n, ok |-> k] (n units, k = 0: "these are   *)
 (* the source's units in order"); a DATA message carries a wire length a, the number b of     *)
 (* decoded units it stands for and an ok flag; a digest is the content it was computed over.  *)
 (* Environment actions: message-level faults on the channels (delete, duplicate, damage,     *)
@@ -34,10 +34,12 @@ Peer(r) == IF r = "C" THEN "V" ELSE "C"
 Snd == IF Upload THEN "C" ELSE "V"
 Rcv == Peer(Snd)
 NF == Len(Files)
+(* ok = 0: genuine; ok = k > 0: damaged by fault number k -- two independently damaged values are   *)
+(* never equal (no accidental digest collision), a damaged value never equals a genuine one          *)
 Cont(n, ok) == [len |-> n, ok |-> ok]
-Src(f) == Cont(Files[f].size, TRUE)
-Empty == Cont(0, TRUE)
-Plus(c, n, ok) == Cont(c.len + n, c.ok /\ ok)
+Src(f) == Cont(Files[f].size, 0)
+Empty == Cont(0, 0)
+Plus(c, n, ok) == Cont(c.len + n, IF c.ok # 0 THEN c.ok ELSE ok)
 
 Msg(t, a, b, ok) == [t |-> t, a |-> a, b |-> b, ok |-> ok]
 
@@ -98,7 +100,7 @@ FailA(r, how, remote, a) ==
     /\ told' = [told EXCEPT ![r] = ~remote]
     /\ chan' = IF remote \/ dead[Peer(r)]
                THEN [chan EXCEPT ![r] = <<>>]
-               ELSE [chan EXCEPT ![r] = <<>>, ![Peer(r)] = Append(@, Msg("FAIL", a, 0, TRUE))]
+               ELSE [chan EXCEPT ![r] = <<>>, ![Peer(r)] = Append(@, Msg("FAIL", a, 0, 0))]
     /\ stopped' = [stopped EXCEPT ![r] = "no"]
 Fail(r, how, remote) == FailA(r, how, remote, 0)
 
@@ -161,7 +163,7 @@ Timeout(r) ==
 (* Handshake.                                                                                 *)
 CSendAct ==
     /\ Running("C") /\ pc["C"] = "c_act" /\ ~Stp("C")
-    /\ chan' = Send("V", Msg("ACT", IF Confirm THEN 1 ELSE 0, 0, TRUE))
+    /\ chan' = Send("V", Msg("ACT", IF Confirm THEN 1 ELSE 0, 0, 0))
     /\ IF Confirm THEN pc' = [pc EXCEPT !["C"] = "c_cfg"] /\ result' = result
        ELSE pc' = [pc EXCEPT !["C"] = "done"] /\ result' = [result EXCEPT !["C"] = "refused"]
     /\ UNCHANGED <<told, stopped>> /\ UnchangedData
@@ -169,7 +171,7 @@ CSendAct ==
 VRecvAct ==
     /\ Running("V") /\ pc["V"] = "v_act" /\ ~Stp("V") /\ RecvOK("V", "ACT")
     /\ IF HeadMsg("V").a = 1
-       THEN /\ chan' = [Pop(chan, "V") EXCEPT !["C"] = IF dead["C"] THEN @ ELSE Append(@, Msg("CFG", 0, 0, TRUE))]
+       THEN /\ chan' = [Pop(chan, "V") EXCEPT !["C"] = IF dead["C"] THEN @ ELSE Append(@, Msg("CFG", 0, 0, 0))]
             /\ pc' = [pc EXCEPT !["V"] = IF Snd = "V" THEN "s_num" ELSE "r_num"]
             /\ result' = result
        ELSE /\ chan' = Pop(chan, "V")
@@ -193,12 +195,12 @@ NextFileS(f) ==   \* pc after finishing file f on the sender
 
 SSendNum ==
     /\ Running(S) /\ pc[S] = "s_num" /\ ~Stp(S)
-    /\ chan' = Send(R, Msg("NUM", NF, 0, TRUE)) /\ Go(S, "s_num_ack")
+    /\ chan' = Send(R, Msg("NUM", NF, 0, 0)) /\ Go(S, "s_num_ack")
     /\ Keep(S) /\ UnchangedData
 
 SRecvNumAck ==
     /\ Running(S) /\ pc[S] = "s_num_ack" /\ ~Stp(S) /\ RecvOK(S, "SUCC")
-    /\ IF HeadMsg(S).a = NF
+    /\ IF HeadMsg(S).a = NF /\ HeadMsg(S).b = 0 /\ HeadMsg(S).ok = 0
        THEN /\ chan' = Pop(chan, S) /\ Keep(S)
             /\ Go(S, IF NF = 0 THEN (IF S = "C" THEN "c_exit" ELSE "v_exit") ELSE "s_name")
             /\ fi' = [fi EXCEPT ![S] = IF NF = 0 THEN 0 ELSE 1] /\ UNCHANGED <<made, rem, outst, sdig, got, ackq, fin, rsize, dst, rdig, fileOK, faults, dead>>
@@ -206,13 +208,13 @@ SRecvNumAck ==
 
 SSendName ==
     /\ Running(S) /\ pc[S] = "s_name" /\ ~Stp(S)
-    /\ chan' = Send(R, Msg("NAME", fi[S], 0, TRUE)) /\ Go(S, "s_name_ack")
+    /\ chan' = Send(R, Msg("NAME", fi[S], 0, 0)) /\ Go(S, "s_name_ack")
     /\ Keep(S) /\ UnchangedData
 
 SRecvNameAck ==
     /\ Running(S) /\ pc[S] = "s_name_ack" /\ ~Stp(S) /\ RecvOK(S, "SUCC")
     /\ LET f == fi[S] IN
-       IF HeadMsg(S).a # f THEN Fail(S, "fail", FALSE) /\ UnchangedData   \* undecodable / wrong name echo
+       IF HeadMsg(S).b # -8 \/ HeadMsg(S).ok # 0 THEN Fail(S, "fail", FALSE) /\ UnchangedData   \* undecodable name echo
        ELSE /\ chan' = Pop(chan, S) /\ Keep(S)
             /\ IF Files[f].dir
                THEN /\ Go(S, NextFileS(f))
@@ -224,13 +226,13 @@ SRecvNameAck ==
 
 SSendSize ==
     /\ Running(S) /\ pc[S] = "s_size" /\ ~Stp(S)
-    /\ chan' = Send(R, Msg("SIZE", Files[fi[S]].size, 0, TRUE)) /\ Go(S, "s_size_ack")
+    /\ chan' = Send(R, Msg("SIZE", Files[fi[S]].size, 0, 0)) /\ Go(S, "s_size_ack")
     /\ Keep(S) /\ UnchangedData
 
 SRecvSizeAck ==
     /\ Running(S) /\ pc[S] = "s_size_ack" /\ ~Stp(S) /\ RecvOK(S, "SUCC")
     /\ LET f == fi[S] IN
-       IF HeadMsg(S).a # Files[f].size THEN Fail(S, "fail", FALSE) /\ UnchangedData
+       IF HeadMsg(S).a # Files[f].size \/ HeadMsg(S).b # 0 \/ HeadMsg(S).ok # 0 THEN Fail(S, "fail", FALSE) /\ UnchangedData
        ELSE /\ chan' = Pop(chan, S) /\ Keep(S)
             /\ Go(S, IF Proto >= 3 /\ Files[f].comp THEN "s_comp" ELSE "s_data")
             /\ rem' = Files[f].size /\ outst' = <<>> /\ sdig' = Empty
@@ -238,7 +240,7 @@ SRecvSizeAck ==
 
 SSendComp ==
     /\ Running(S) /\ pc[S] = "s_comp" /\ ~Stp(S)
-    /\ chan' = Send(R, Msg("COMP", 1, 0, TRUE)) /\ Go(S, "s_data")
+    /\ chan' = Send(R, Msg("COMP", 1, 0, 0)) /\ Go(S, "s_data")
     /\ Keep(S) /\ UnchangedData
 
 (* protocol 1 (sendFileData): one DATA of c units, then its SUCC(c), until step = size;      *)
@@ -249,14 +251,14 @@ SDataDone1 ==
 
 SSendData1(c) ==
     /\ Proto < 2 /\ Running(S) /\ pc[S] = "s_data" /\ ~Stp(S) /\ c \in 1..rem
-    /\ chan' = Send(R, Msg("DATA", c, c, TRUE))
-    /\ rem' = rem - c /\ outst' = <<c>> /\ sdig' = Plus(sdig, c, TRUE)
+    /\ chan' = Send(R, Msg("DATA", c, c, 0))
+    /\ rem' = rem - c /\ outst' = <<c>> /\ sdig' = Plus(sdig, c, 0)
     /\ Go(S, "s_ack1") /\ Keep(S)
     /\ UNCHANGED <<made, got, ackq, fin, rsize, dst, rdig, fileOK, faults, dead, fi>>
 
 SRecvAck1 ==
     /\ Running(S) /\ pc[S] = "s_ack1" /\ ~Stp(S) /\ RecvOK(S, "SUCC")
-    /\ IF HeadMsg(S).a # outst[1] THEN Fail(S, "fail", FALSE) /\ UnchangedData
+    /\ IF HeadMsg(S).a # outst[1] \/ HeadMsg(S).b # 0 \/ HeadMsg(S).ok # 0 THEN Fail(S, "fail", FALSE) /\ UnchangedData
        ELSE /\ chan' = Pop(chan, S) /\ outst' = <<>> /\ Go(S, "s_data") /\ Keep(S)
             /\ UNCHANGED <<made, rem, sdig, got, ackq, fin, rsize, dst, rdig, fileOK, faults, dead, fi>>
 
@@ -267,15 +269,15 @@ SRecvAck1 ==
 SSendData2(a, c) ==
     /\ Proto >= 2 /\ Running(S) /\ pc[S] = "s_data" /\ ~Stp(S) /\ PauseOK(S)
     /\ Len(outst) < Window /\ a >= 1 /\ c \in 0..rem
-    /\ chan' = Send(R, Msg("DATA", a, c, TRUE))
-    /\ rem' = rem - c /\ outst' = Append(outst, a) /\ sdig' = Plus(sdig, c, TRUE)
+    /\ chan' = Send(R, Msg("DATA", a, c, 0))
+    /\ rem' = rem - c /\ outst' = Append(outst, a) /\ sdig' = Plus(sdig, c, 0)
     /\ UNCHANGED pc /\ Keep(S)
     /\ UNCHANGED <<made, got, ackq, fin, rsize, dst, rdig, fileOK, faults, dead, fi>>
 
 SSendFinish ==
     /\ Proto >= 2 /\ Running(S) /\ pc[S] = "s_data" /\ ~Stp(S) /\ PauseOK(S)
     /\ Len(outst) < Window /\ rem = 0
-    /\ chan' = Send(R, Msg("DATA", 0, 0, TRUE)) /\ outst' = Append(outst, 0)
+    /\ chan' = Send(R, Msg("DATA", 0, 0, 0)) /\ outst' = Append(outst, 0)
     /\ Go(S, "s_acks") /\ Keep(S)
     /\ UNCHANGED <<made, rem, sdig, got, ackq, fin, rsize, dst, rdig, fileOK, faults, dead, fi>>
 
@@ -305,7 +307,7 @@ SSendMD5 ==
 SRecvMD5Ack ==
     /\ Running(S) /\ pc[S] = "s_md5_ack" /\ ~Stp(S) /\ RecvOK(S, "SUCC")
     /\ LET f == fi[S] IN
-       IF Cont(HeadMsg(S).a, HeadMsg(S).ok) # sdig THEN Fail(S, "fail", FALSE) /\ UnchangedData
+       IF HeadMsg(S).b # -7 \/ Cont(HeadMsg(S).a, HeadMsg(S).ok) # sdig THEN Fail(S, "fail", FALSE) /\ UnchangedData
        ELSE /\ chan' = Pop(chan, S) /\ Keep(S)
             /\ fileOK' = [fileOK EXCEPT ![S] = @ \cup {f}]
             /\ Go(S, NextFileS(f))
@@ -319,7 +321,7 @@ NextFileR(f) == IF f < NF THEN "r_name" ELSE (IF R = "C" THEN "c_exit" ELSE "v_e
 RRecvNum ==
     /\ Running(R) /\ pc[R] = "r_num" /\ ~Stp(R) /\ RecvOK(R, "NUM")
     /\ LET n == HeadMsg(R).a IN
-       /\ chan' = [Pop(chan, R) EXCEPT ![S] = IF dead[S] THEN @ ELSE Append(@, Msg("SUCC", n, 0, TRUE))]
+       /\ chan' = [Pop(chan, R) EXCEPT ![S] = IF dead[S] THEN @ ELSE Append(@, Msg("SUCC", n, 0, 0))]
        /\ Go(R, IF n = 0 THEN (IF R = "C" THEN "c_exit" ELSE "v_exit") ELSE "r_name")
        /\ fi' = [fi EXCEPT ![R] = 0]
        /\ rsize' = n      \* number of files announced (re-used register, reset at the first NAME)
@@ -329,8 +331,8 @@ RRecvNum ==
 RRecvName ==
     /\ Running(R) /\ pc[R] = "r_name" /\ ~Stp(R) /\ RecvOK(R, "NAME")
     /\ LET f == HeadMsg(R).a IN
-       IF f \notin 1..NF THEN Fail(R, "fail", FALSE) /\ UnchangedData      \* undecodable name
-       ELSE /\ chan' = [Pop(chan, R) EXCEPT ![S] = IF dead[S] THEN @ ELSE Append(@, Msg("SUCC", f, 0, TRUE))]
+       IF f \notin 1..NF \/ HeadMsg(R).ok # 0 THEN Fail(R, "fail", FALSE) /\ UnchangedData      \* undecodable name
+       ELSE /\ chan' = [Pop(chan, R) EXCEPT ![S] = IF dead[S] THEN @ ELSE Append(@, Msg("SUCC", f, -8, 0))]    \* b = -8: an encoded name, not a number
             /\ fi' = [fi EXCEPT ![R] = f]
             /\ dst' = [dst EXCEPT ![f] = Empty] /\ made' = made \cup {f}
             /\ Keep(R)
@@ -342,7 +344,7 @@ RRecvName ==
 RRecvSize ==
     /\ Running(R) /\ pc[R] = "r_size" /\ ~Stp(R) /\ RecvOK(R, "SIZE")
     /\ LET n == HeadMsg(R).a IN
-       /\ chan' = [Pop(chan, R) EXCEPT ![S] = IF dead[S] THEN @ ELSE Append(@, Msg("SUCC", n, 0, TRUE))]
+       /\ chan' = [Pop(chan, R) EXCEPT ![S] = IF dead[S] THEN @ ELSE Append(@, Msg("SUCC", n, 0, 0))]
        /\ rsize' = n /\ got' = Empty /\ ackq' = <<>> /\ fin' = FALSE /\ rdig' = Empty
        /\ Go(R, IF Proto >= 3 /\ Files[fi[R]].comp THEN "r_comp" ELSE (IF Proto < 2 THEN "r_data1" ELSE "r_data"))
     /\ Keep(R) /\ UNCHANGED <<made, rem, outst, sdig, dst, fileOK, faults, dead, fi>>
@@ -362,7 +364,7 @@ RDataDone1 ==
 RRecvData1 ==
     /\ Running(R) /\ pc[R] = "r_data1" /\ ~Stp(R) /\ Saved < rsize /\ RecvOK(R, "DATA")
     /\ LET m == HeadMsg(R) f == fi[R] IN
-       /\ chan' = [Pop(chan, R) EXCEPT ![S] = IF dead[S] THEN @ ELSE Append(@, Msg("SUCC", m.b, 0, TRUE))]
+       /\ chan' = [Pop(chan, R) EXCEPT ![S] = IF dead[S] THEN @ ELSE Append(@, Msg("SUCC", m.b, 0, 0))]
        /\ dst' = [dst EXCEPT ![f] = Plus(@, m.b, m.ok)] /\ rdig' = Plus(rdig, m.b, m.ok)
     /\ UNCHANGED pc /\ Keep(R)
     /\ UNCHANGED <<made, rem, outst, sdig, got, ackq, fin, rsize, fileOK, faults, dead, fi>>
@@ -390,7 +392,7 @@ RSave(n) ==
 (* pipelineSendAck, first loop: SUCC(len/savedSteps) for each received DATA in order          *)
 RSendAck ==
     /\ Running(R) /\ pc[R] = "r_data" /\ ~Stp(R) /\ ackq # <<>> /\ PauseOK(R)
-    /\ chan' = Send(S, Msg("SUCC", ackq[1], Saved, TRUE))
+    /\ chan' = Send(S, Msg("SUCC", ackq[1], Saved, 0))
     /\ ackq' = Tail(ackq)
     /\ UNCHANGED pc /\ Keep(R)
     /\ UNCHANGED <<made, rem, outst, sdig, got, fin, rsize, dst, rdig, fileOK, faults, dead, fi>>
@@ -402,7 +404,7 @@ RSendFinal ==
     /\ Running(R) /\ pc[R] = "r_data" /\ ~Stp(R) /\ fin /\ ackq = <<>> /\ got.len = 0 /\ PauseOK(R)
     /\ IF Saved # rsize
        THEN Fail(R, "fail", FALSE) /\ UnchangedData
-       ELSE /\ chan' = Send(S, Msg("SUCC", -1, Saved, TRUE))
+       ELSE /\ chan' = Send(S, Msg("SUCC", -1, Saved, 0))
             /\ Go(R, "r_md5")
             /\ Keep(R) /\ UnchangedData
 
@@ -410,7 +412,7 @@ RSendFinal ==
 (* the sender; used by the trace spec, not part of Next (it would only add stuttering acks)  *)
 RSendFinalEarly ==
     /\ Running(R) /\ pc[R] = "r_data" /\ ~Stp(R) /\ fin /\ ackq = <<>> /\ Saved < rsize /\ PauseOK(R)
-    /\ chan' = Send(S, Msg("SUCC", -1, Saved, TRUE))
+    /\ chan' = Send(S, Msg("SUCC", -1, Saved, 0))
     /\ UNCHANGED pc /\ Keep(R) /\ UnchangedData
 
 (* recvFileMD5: compare digests; equal => SUCC(digest), file verified                         *)
@@ -418,7 +420,7 @@ RRecvMD5 ==
     /\ Running(R) /\ pc[R] = "r_md5" /\ ~Stp(R) /\ RecvOK(R, "MD5")
     /\ LET f == fi[R] m == HeadMsg(R) IN
        IF Cont(m.a, m.ok) # rdig THEN Fail(R, "fail", FALSE) /\ UnchangedData
-       ELSE /\ chan' = [Pop(chan, R) EXCEPT ![S] = IF dead[S] THEN @ ELSE Append(@, Msg("SUCC", rdig.len, 0, rdig.ok))]
+       ELSE /\ chan' = [Pop(chan, R) EXCEPT ![S] = IF dead[S] THEN @ ELSE Append(@, Msg("SUCC", rdig.len, -7, rdig.ok))]    \* b = -7: an encoded digest, not a number
             /\ fileOK' = [fileOK EXCEPT ![R] = @ \cup {f}]
             /\ Go(R, NextFileR(f)) /\ Keep(R)
             /\ UNCHANGED <<made, rem, outst, sdig, got, ackq, fin, rsize, dst, rdig, faults, dead, fi>>
@@ -427,7 +429,7 @@ RRecvMD5 ==
 (* Exit exchange.                                                                             *)
 CExit ==
     /\ Running("C") /\ pc["C"] = "c_exit" /\ ~Stp("C")
-    /\ chan' = Send("V", Msg("EXIT", 0, 0, TRUE))
+    /\ chan' = Send("V", Msg("EXIT", 0, 0, 0))
     /\ pc' = [pc EXCEPT !["C"] = "done"] /\ result' = [result EXCEPT !["C"] = "ok"]
     /\ UNCHANGED <<told, stopped>> /\ UnchangedData
 
@@ -452,9 +454,14 @@ UserStop(r, kind) ==
     /\ stopped' = [stopped EXCEPT ![r] = kind]
     /\ UNCHANGED <<chan, pc, result, told>> /\ UnchangedData
 
-Damage(m) ==   \* a message that no longer carries what was sent
-    {[m EXCEPT !.ok = FALSE], [m EXCEPT !.a = @ + 1], [m EXCEPT !.t = "JUNK"]}
-        \cup (IF m.b > 0 THEN {[m EXCEPT !.b = @ - 1, !.ok = FALSE]} ELSE {})
+Damage(m) ==   \* a message that no longer carries what was sent.  Encoded payloads (names, digests, fail
+               \* text: zlib + base64) can only become undecodable or junk, never another valid value;
+               \* numbers can become other numbers.
+    IF m.t \in {"FAIL", "EXIT", "ACT", "CFG"} THEN {[m EXCEPT !.t = "JUNK"]}
+    ELSE IF m.t \in {"NAME", "MD5"} \/ (m.t = "SUCC" /\ m.b \in {-7, -8})
+         THEN {[m EXCEPT !.ok = faults + 1], [m EXCEPT !.t = "JUNK"]}
+    ELSE {[m EXCEPT !.ok = faults + 1], [m EXCEPT !.a = @ + 1], [m EXCEPT !.t = "JUNK"]}
+            \cup (IF m.b > 0 THEN {[m EXCEPT !.b = @ - 1, !.ok = faults + 1]} ELSE {})
 
 Fault(r) ==
     /\ faults < MaxFaults /\ HasMsg(r)
@@ -497,7 +504,7 @@ UserResume ==
 KeepAlive ==      \* "#DATA:=" / "#SUCC:=" every 100 ms while pausing
     /\ paused /\ Running("C") /\ KeepPoint /\ ~Stp("C")
     /\ \A i \in 1..Len(chan["V"]) : chan["V"][i].a # -2        \* (one in flight is enough for the model)
-    /\ chan' = Send("V", Msg(IF S = "C" THEN "DATA" ELSE "SUCC", -2, 0, TRUE))
+    /\ chan' = Send("V", Msg(IF S = "C" THEN "DATA" ELSE "SUCC", -2, 0, 0))
     /\ UNCHANGED <<pc, result, told, stopped>> /\ UnchangedData /\ UNCHANGED PauseVars
 
 SkipKeep(r) ==    \* recvCheckV2: "client pausing, read again" (fresh time-out)
